@@ -32,16 +32,6 @@ def reshape_zero(name, c, detail):
     """`Reshape(allowzero=0)` meets a 0: aten_reshape with a 0 in the target; aten_flatten's Reshape
     path on a tensor with a zero-size dim outside the flattened range; aten_roll without dims on a
     tensor with a zero-size dim."""
-    if name == "flatten":
-        s = c["shape"]
-        r = len(s)
-        if r < 2 or 0 not in s:
-            return False
-        a, b = c["a"], c["b"]
-        if not (-r <= a < r and -r <= b < r):
-            return False
-        a, b = _norm(a, r), _norm(b, r)
-        return any(d == 0 for d in s[:a] + s[b + 1:])
     if name == "roll":
         # with dims: the slice end is Size(x) = 0 (the no-dims path was fixed in 5bf0068)
         return bool(c["dims"]) and 0 in c["shape"]
@@ -100,6 +90,18 @@ def repeat_interleave_empty(name, c, detail):
     return name == "repeat_interleave" and 0 in c["shape"]
 
 
+def unfold_rank0_size0(name, c, detail):
+    return name == "unfold" and not c["shape"] and c["size"] == 0
+
+
+def add_bool_alpha0_broadcast(name, c, detail):
+    """aten_add on bool with alpha == 0 returns Identity(self): the broadcast against `other` is lost."""
+    if name != "add" or c["dtype2"] != "bool" or c["alpha2"] != 0:
+        return False
+    a, b = c["shape"], c["other"]
+    return len(b) > len(a) or any(x != y and y != 1 for x, y in zip(a[::-1], b[::-1]))
+
+
 def upsample_bilinear_scales_ignored(name, c, detail):
     """aten_upsample_bilinear2d ignores scales_h/scales_w; PyTorch uses them for the source coordinates when
     align_corners=False, so the values differ whenever output_size != input_size * scale exactly."""
@@ -138,11 +140,7 @@ def rank0_explicit_dim(name, c, detail):
     (amax/amin/prod.dim_int), `Squeeze(dims)` on the rank-0 result (all.dims/any.dims keepdim=False)."""
     if name in ("amax", "amin"):
         return len(c["shape"]) == 0 and bool(c["dims"])
-    if name == "prod_dim":
-        return len(c["shape"]) == 0
-    if name in ("all_dims", "any_dims"):
-        return len(c["shape"]) == 0 and bool(c["dims"]) and not c["keep"]
-    return False
+    return False   # prod.dim_int / all.dims / any.dims: fixed in f89de7f
 
 
 def split_zero_dim(name, c, detail):
@@ -164,17 +162,14 @@ def div_mode_int_f32(name, c, detail):
 def int_dtype_promotion(name, c, detail):
     """integer results whose dtype differs from PyTorch's: sum/prod-style promotion to int64 is not
     reproduced, and bitwise_left_shift always casts to the signed type."""
-    return name in ("sum", "sum_dim", "cumsum_dtype", "lshift_dtype") and detail.startswith("dtype")
+    return name in ("sum", "sum_dim") and detail.startswith("dtype")
 
 
 PREDICATES = {
-    "C08-squeeze-dim-nonunit": squeeze_dim_nonunit,
-    "C08-reshape-zero": reshape_zero,
-    "C08-repeat-interleave-empty": repeat_interleave_empty,
-    "C08-narrow-negative-start-tensor": narrow_negative_start_tensor,
+    "C08-add-bool-alpha0-broadcast": add_bool_alpha0_broadcast,
+    "C08-unfold-rank0-size0": unfold_rank0_size0,
     "C08-upsample-bilinear-scales-ignored": upsample_bilinear_scales_ignored,
     "C08-empty-reduction": empty_reduction,
     "C08-rank0-explicit-dim": rank0_explicit_dim,
-    "C08-div-mode-int-f32": div_mode_int_f32,
     "C08-int-dtype-promotion": int_dtype_promotion,
 }
